@@ -23,6 +23,7 @@ def opOfJson (j : Json) : Option Op :=
     | [.str "iffail", .str k, .str m] => some (.iffail k m)
     | [.str "clear"] => some .clear
     | [.str "setnested", .str k, .str k2, v] => some (.setnested k k2 (toV v))
+    | [.str "markdeep", .str k, .str k2, v] => some (.markdeep k k2 (toV v))
     | [.str "rejectUnless", .str k] => some (.rejectUnless k)
     | [.str "rejectIf", .str k, v] => some (.rejectIf k (toV v))
     | [.str "loop"] => some .loop
